@@ -42,6 +42,7 @@ ASSUMPTIONS = [
 LMAX = {'quick': 4, 'thorough': 5}
 _p = None
 TPOOL = []      # tracts
+DPOOL = []
 SPOOL = ['154n97w14', '154n97w14', '154n97w15', 'XXXzXXXzXX', '___z___z__', '___z97w01', '1s2e14']
 
 
@@ -58,6 +59,17 @@ def worker_init(tier):
         T('y'),
         T('z', trs='___z97w01'),
         T('NE/4', trs='1s2e14', parse_qq=True),
+    ]
+    # pool for filter_duplicates only: same Twp/Rge/Sec, the same *set* of lots / aliquots written in a different order, with a
+    # lot or an aliquot named twice, and with overlapping aliquots (the lists differ, the sets do not)
+    global DPOOL
+    DPOOL = [
+        T('Lots 1 - 3, S/2NE/4', trs='154n97w14', parse_qq=True),
+        T('Lot 3, S/2NE/4, Lots 1 - 3', trs='154n97w14', parse_qq=True),
+        T('NE/4', trs='154n97w14', parse_qq=True),
+        T('NE/4, NE/4NE/4', trs='154n97w14', parse_qq=True),
+        T('NE/4, NE/4NE/4', trs='154n97w15', parse_qq=True),
+        T('S/2NE/4, Lots 3, 2, 1', trs='154n97w14', parse_qq=True),
     ]
 
 
@@ -82,6 +94,9 @@ def mk(kind, idx):
     """-> (container, list of the element objects in order)"""
     if kind == 'tract':
         xs = [TPOOL[i] for i in idx]
+        return _p.TractList(xs), xs
+    if kind == 'dtract':
+        xs = [DPOOL[i] for i in idx]
         return _p.TractList(xs), xs
     pool = [_p.TRS(s) for s in SPOOL]
     xs = [pool[i] for i in idx]
@@ -158,6 +173,8 @@ def op_filter_errors(acc, kind, idx):
 def ref_dups(kind, xs, method):
     """-> positions of the elements that are duplicates of an earlier one."""
     m = method
+    if kind == 'dtract':
+        kind = 'tract'
     if m == 'default':
         m = 'instance' if kind == 'tract' else 'trs'
     seen_i = set()
@@ -560,6 +577,8 @@ def units(tier):
         for path in ITER_PATHS:
             us.append({'u': 'construct', 'listkind': kind, 'path': path})
         us.append({'u': 'single', 'listkind': kind})
+    for f in range(6):
+        us.append({'u': 'dups', 'first': f})
     return us
 
 
@@ -585,6 +604,10 @@ def run_unit(unit, tier):
         first = tuple(unit['first'])
         for tail in itertools.product(range(7), repeat=unit['L'] - len(first)):
             run_ops(acc, unit['kind'], first + tail)
+    elif unit['u'] == 'dups':
+        for L in range(1, 5):
+            for tail in itertools.product(range(6), repeat=L - 1):
+                op_dups(acc, 'dtract', (unit['first'],) + tail)
     elif unit['u'] == 'into':
         lists = [t for L in range(0, 3) for t in itertools.product(range(7), repeat=L)]
         f = unit['first']
